@@ -3,6 +3,7 @@
 //     e:<hex script>     eval, expect an int -> recorded          c:<name>      eval "<name>()" -> recorded
 //     f:<name>:<int>     add(fun(() -> int), name)                 g:<name>:<int>  add_global(var(int), name)
 //     k:<name>:<int>     add_global_const                          u:<hex path>  use(file)  (the file calls bump())
+//     o:<n>:<int>        add an overload of `shared_ov` and of `+` for the parameter type Tag<n>
 //     s                  get_state()                               y             std::this_thread::yield()
 //   output: t0=<results>;t1=<results>;...|bumps=<n>|final=<main thread reads every registered name>
 // A data race makes ThreadSanitizer abort the process (TSAN_OPTIONS=halt_on_error=1): the driver then knows the workload.
@@ -13,6 +14,17 @@
 using namespace chaiscript;
 
 static std::atomic<int> g_bumps{0};
+
+// distinct parameter types, so that many overloads of ONE name can be registered without conflict
+template<int N> struct Tag { int v = N; };
+template<int N> static void add_overloads(ChaiScript &chai, int n, int val) {
+  if (n == N) {
+    chai.add(fun([val](Tag<N>) { return val; }), "shared_ov");
+    chai.add(fun([val](Tag<N>, Tag<N>) { return val; }), "+");
+    return;
+  }
+  if constexpr (N > 0) { add_overloads<N - 1>(chai, n, val); }
+}
 
 static std::string eval_int(ChaiScript &c, const std::string &src) {
   try { return std::to_string(c.eval<int>(src)); }
@@ -54,6 +66,7 @@ int main() {
               else if (f[0] == "f" && f.size() == 3) { const int v = std::stoi(f[2]); chai.add(fun([v]() { return v; }), f[1]); std::lock_guard<std::mutex> l(reg_m); registered.push_back(f[1] + "()"); }
               else if (f[0] == "g" && f.size() == 3) { chai.add_global(var(std::stoi(f[2])), f[1]); std::lock_guard<std::mutex> l(reg_m); registered.push_back(f[1]); }
               else if (f[0] == "k" && f.size() == 3) { chai.add_global_const(const_var(std::stoi(f[2])), f[1]); std::lock_guard<std::mutex> l(reg_m); registered.push_back(f[1]); }
+              else if (f[0] == "o" && f.size() == 3) { add_overloads<63>(chai, std::stoi(f[1]) % 64, std::stoi(f[2])); }     // another overload of shared_ov and of +
               else if (f[0] == "u" && f.size() == 2) { chai.use(vh::hex_decode(f[1])); }
               else if (f[0] == "s") { auto st = chai.get_state(); (void)st; }
               else if (f[0] == "y") { std::this_thread::yield(); }
